@@ -157,7 +157,11 @@ func generate(rng *rand.Rand, prop, tier string) *Scenario {
 				// C07 quantifies over cloud-call errors and cancellation; disk errors belong to C04/C05
 				continue
 			}
-			for nth := 0; nth < 12; nth++ {
+			span := 12
+			if prop == "C09" && (site == "api.get" || site == "api.list") {
+				span = 40 // GC looks pods up one by one: lookup failures have to reach late calls too
+			}
+			for nth := 0; nth < span; nth++ {
 				if rng.Float64() < rate {
 					sc.Faults = append(sc.Faults, PlannedFault{Site: site, Nth: nth, Kind: oneOf(rng, faultKinds[site]...)})
 				}
